@@ -6,6 +6,8 @@ from common import canon_errors
 from props import _vfamily
 
 LEVEL = "proof"
+import vrun as _vrun_refs
+_vrun_refs.P_REFS = 0.15      # some generated schemas carry registry references (validator-bound registries)
 COQ_FILES = ['theories/Model/Validate.v', 'theories/Model/FactsOk.v', 'theories/Proofs/OfProofs.v', 'theories/Properties/C09.v']
 FACT_GROUPS = ["F3", "F5", "F6", "F8"]
 ALLOWED_AXIOMS = []
